@@ -1,4 +1,9 @@
-"""Wall-clock watchdog for real executions (SIGALRM, main thread only)."""
+"""Watchdog for real executions (main thread only).
+
+The budget is CPU time of this process (ITIMER_PROF): a machine busy with other work stretches wall-clock time
+arbitrarily, and a run that merely waits for the processor has not "failed to terminate".  A generous wall-clock
+backstop (ITIMER_REAL) still ends executions that block without using the processor.
+"""
 import signal
 from contextlib import contextmanager
 
@@ -13,10 +18,20 @@ def _handler(signum, frame):
 
 @contextmanager
 def deadline(seconds):
-    old = signal.signal(signal.SIGALRM, _handler)
-    signal.setitimer(signal.ITIMER_REAL, seconds)
+    old_alrm = signal.signal(signal.SIGALRM, _handler)
+    old_prof = signal.signal(signal.SIGPROF, _handler)
+    wall = seconds * 20 + 60
+    prev_prof = signal.setitimer(signal.ITIMER_PROF, seconds)[0]
+    prev_real = signal.setitimer(signal.ITIMER_REAL, wall)[0]
     try:
         yield
     finally:
-        signal.setitimer(signal.ITIMER_REAL, 0)
-        signal.signal(signal.SIGALRM, old)
+        # an enclosing deadline keeps running with what this one left of it
+        used_prof = seconds - signal.setitimer(signal.ITIMER_PROF, 0)[0]
+        used_real = wall - signal.setitimer(signal.ITIMER_REAL, 0)[0]
+        signal.signal(signal.SIGALRM, old_alrm)
+        signal.signal(signal.SIGPROF, old_prof)
+        if prev_prof > 0:
+            signal.setitimer(signal.ITIMER_PROF, max(prev_prof - used_prof, 0.001))
+        if prev_real > 0:
+            signal.setitimer(signal.ITIMER_REAL, max(prev_real - used_real, 0.001))
